@@ -43,7 +43,13 @@ def make_scenario(seed_tuple):
         c = str(rng.choice(CALLS))
         calls.append(dict(kind=c, n_batches=int(rng.choice([1, 2, 3, 7])), n_linear=int(rng.choice([1, 3])),
                           size=int(rng.choice([20, 100])), n_req=int(rng.choice([1, 3]))))
-    return pb, calls, int(rng.integers(0, 2 ** 31))
+    api_seed = int(rng.integers(0, 2 ** 31))
+    if rng.random() < 0.5:
+        # the same request a second time on the same object (anything remembered from the first must not answer the second)
+        byc = [c for c in calls if c["kind"].startswith("rejection-int")]
+        pick = byc[int(rng.integers(0, len(byc)))] if byc and rng.random() < 0.7 else calls[int(rng.integers(0, len(calls)))]
+        calls.append(dict(pick, repeated=True))
+    return pb, calls, api_seed
 
 
 def run_scenario(seed_tuple, tmpdir, pool_kind=0, api_seed_shift=0, pool=None, record=False, guard=None):
@@ -102,6 +108,9 @@ def run_scenario(seed_tuple, tmpdir, pool_kind=0, api_seed_shift=0, pool=None, r
             ent = dict(kind=kind, digest=digest_samples(r), n=len(r))
             if "K" in r.par_names and kind.startswith(("rejection", "iterative")):
                 ent["K"] = [float(x) for x in np.asarray(r["K"].value, dtype=float)]
+            if kind.startswith("rejection-int"):
+                # prior samples requested by count are drawn afresh from the generator on every call
+                ent["P_bycount"] = sorted(set(float(x) for x in np.asarray(r["P"].value, dtype=float)))
         except Exception as e:
             ent = dict(kind=kind, digest="raised:" + type(e).__name__, n=-1, error=repr(e)[:200])
         after = global_state_digest()
